@@ -5,7 +5,7 @@ RULE = ("D <accessor> <hex>: one integer item (sign x head width x argument) fol
         "accessors u8..u64, i8..i64, int, char and datatype. Exhaustive: all arguments < 2^16 at the 2-byte width, all < 256 at the "
         "1-byte width, all < 24 immediate; every 2^k+-3 boundary and seeded random arguments at the 4- and 8-byte widths; every "
         "argument also in non-minimal widths. S= is Spec/Acc.v spec_acc on the tree the reference parser finds; O= checks that the "
-        "reported datatype names an accepting accessor. Non-trivial: the argument does not fit the immediate form (>= 24).")
+        "reported datatype names an accepting accessor. IC <z>: Int::try_from(i128) and all conversions into/out of Int at every boundary. Non-trivial: the argument does not fit the immediate form (>= 24).")
 ASSUMPTIONS = ["usize/isize are u64/i64 (64-bit target)", "NonZero and Int conversions are covered through the type universe (C01)"]
 ACCS = ["u8", "u16", "u32", "u64", "i8", "i16", "i32", "i64", "int", "char", "datatype"]
 
@@ -36,11 +36,17 @@ def generate(tier, rng):
         for k in range(len(it)):
             for a in ("u8", "i64", "int", "datatype"):
                 out.append("D %s %s" % (a, hexs(it[:k])))
+    # data::Int conversions: every boundary of every target type and beyond the Int range
+    zs = set(boundaries(U64, -(1 << 64))) | set(rand_ints(rng, 2000 if big else 300, -(1 << 64), U64))
+    zs |= {-(1 << 64) - 1, 1 << 64, (1 << 64) + 1, -(1 << 65), 1 << 100, -(1 << 100), (1 << 127) - 1, -(1 << 127)}
+    out += ["IC %d" % z for z in sorted(zs)]
     return out
 
 def nontrivial(line, impl):
     t = line.split()
+    if t[0] == "IC": return abs(int(t[1])) > 23
     return len(t) >= 3 and len(t[2]) > 6
 
 def classify(line, impl):
+    if line.startswith("IC"): return "IC:" + ("none" if impl.startswith("int=none") else "int")
     return line.split()[1] + ":" + impl.split("@")[0].split(":")[0] + (":" + impl.split(":")[1] if impl.startswith("err") else "")
